@@ -48,6 +48,20 @@ def bounds(tier, seed):
 
 def groups(tier, seed):
     out = [dict(label=l, X=X, Ys=Ys) for l, X, Ys in pcov.pcovr_datas(tier, seed)]
+    # steeply decaying spectrum with a floor, 20 x 14 (singular values 1, .3, .09, .03, .03, ...): with k <= 3
+    # the randomized sketch (k + 10 columns) spans neither the covariance (14 x 14) nor the Gram matrix
+    # (20 x 20), and the third retained eigenvalue is below 1% of the first
+    for j in range(1 if tier == "quick" else 4):
+        rng = np.random.default_rng([seed, 2014, j])
+        A = rng.standard_normal((20, 14))
+        Q, _ = np.linalg.qr(A - A.mean(axis=0))
+        V, _ = np.linalg.qr(rng.standard_normal((14, 14)))
+        sv = np.array([1.0, 0.3, 0.09] + [0.03] * 11)
+        Xd = (Q * sv) @ V.T
+        Xd = Xd - Xd.mean(axis=0)
+        Yd = np.round(rng.standard_normal((20, 2)) * 64) / 64 * 0.05
+        Yd = Yd - Yd.mean(axis=0)
+        out.append(dict(label="decay20x14", X=Xd.tolist(), Ys=[Yd.tolist()]))
     if tier == "thorough":
         rng = np.random.default_rng([seed, 501])
         X = np.round(rng.standard_normal((501, 3)) * (0.5 ** np.arange(3)) * 256) / 256
@@ -61,6 +75,8 @@ def groups(tier, seed):
 def cases(group):
     X = group["X"]
     kmax = min(len(X), len(X[0]))
+    if group["label"].startswith("decay"):
+        kmax = 3
     for Y in group["Ys"]:
         for mixing in MIXINGS:
             for k in range(1, kmax + 1):
